@@ -4,10 +4,13 @@ import (
 	"flag"
 	"fmt"
 	"os"
+	"path/filepath"
 	"sort"
 	"strings"
 	"sync"
 	"time"
+
+	"golang.org/x/tools/go/ssa"
 )
 
 func envOr(k, d string) string {
@@ -29,6 +32,45 @@ func main() {
 		cmdVerify(os.Args[2:])
 	case "check":
 		os.Exit(cmdCheck(os.Args[2:]))
+	case "uncovered":
+		// govc uncovered <pkg pattern>...: functions of the given packages that have a body but no contract
+		// of their own (they are verified only where a caller inlines them, or not at all)
+		e, err := LoadEngine(envOr("VERIF_REPO", "/repo"), os.Args[2:])
+		if err != nil {
+			fmt.Fprintln(os.Stderr, err)
+			os.Exit(2)
+		}
+		if err := e.LoadSpecs(filepath.Join(envOr("VERIF_DIR", "/verif"), "contracts/external")); err != nil {
+			fmt.Fprintln(os.Stderr, err)
+			os.Exit(2)
+		}
+		e.expandSweeps()
+		var keys []string
+		for k, fn := range e.funcs {
+			if fn.Blocks == nil || !strings.HasPrefix(k, e.modulePath) || fn.Synthetic != "" {
+				continue
+			}
+			pk := k[:strings.Index(k, "::")]
+			if p, ok := e.pkgs[pk]; !ok || len(p.Syntax) == 0 {
+				continue
+			}
+			want := false
+			for _, a := range os.Args[2:] {
+				if strings.HasSuffix(pk, strings.TrimPrefix(a, ".")) {
+					want = true
+				}
+			}
+			if !want {
+				continue
+			}
+			if ct := e.db.Contracts[k]; ct == nil {
+				keys = append(keys, fmt.Sprintf("%s  (%d instrs)", strings.TrimPrefix(k, e.modulePath+"/"), countInstrs(fn)))
+			}
+		}
+		sort.Strings(keys)
+		for _, k := range keys {
+			fmt.Println(k)
+		}
 	case "replay":
 		os.Exit(cmdReplay(os.Args[2:]))
 	case "lemmas":
@@ -246,4 +288,12 @@ func cmdVerify(args []string) {
 			fmt.Println("  trusted contracts used:", ts)
 		}
 	}
+}
+
+func countInstrs(fn *ssa.Function) int {
+	n := 0
+	for _, b := range fn.Blocks {
+		n += len(b.Instrs)
+	}
+	return n
 }
